@@ -786,7 +786,11 @@ def run_case(seed, tier="quick", case=None, known=()):
             stop |= violate("user.mutated", op, step, "user reference index list changed")
         for name, alg, h in bound:
             if _hash_handed(getattr(alg, "data", None)) != h:
-                inc("probe.bound_data_changed")  # C15's business, recorded here as a probe only
+                # what an algorithm was handed equals the operations applied up to its addition - and stays so
+                # (also C15's business: "the data bound when it was added")
+                stop |= violate("bind.handed_changed", op, step,
+                                f"the data handed to {name} when it was added was changed by a later {k}")
+                break
         res["sig"].append(f"{k}:{outcome}")
         res["states"].append(m.abstract())
         log.add({"step": step, "op": op, "outcome": outcome, "state": m.abstract(),
